@@ -12,7 +12,7 @@ import re
 
 from . import btc as B
 
-KEYID_RE = re.compile(r"^m(/[0-9]+'?){5}$")
+KEYID_RE = re.compile(r"m(/[0-9]+'?){5}\Z")
 V5_COMMANDS = {"version", "sign", "getPubKey", "advanceBlockchain", "resetAdvanceBlockchain",
                "blockchainState", "updateAncestorBlock", "blockchainParameters",
                "signerHeartbeat", "uiHeartbeat"}
